@@ -54,9 +54,9 @@ type c17RefEntry struct {
 }
 
 type c17Stats struct {
-	refreshes, creations, recreations, removals, survivals int
-	boundaryExact, boundaryBelow, expiresRemovingAndKeeping  int
-	pushes, pops                                             int
+	refreshes, creations, recreations, removals, survivals  int
+	boundaryExact, boundaryBelow, expiresRemovingAndKeeping int
+	pushes, pops                                            int
 }
 
 var c17Base = time.Unix(1600000000, 0)
@@ -367,7 +367,7 @@ func TestVerifC17Inner(t *testing.T) {
 	var st c17Stats
 
 	// 1. PRNG scripts
-	n := vlib.Scale(20000, 600000)
+	n := vlib.Scale(20000, 300000)
 	for i := 0; i < n; i++ {
 		r := root.SplitN("script", i)
 		T, nAddr, ops := c17GenScript(r)
